@@ -26,24 +26,23 @@ Definition ex_seg2 : MediaSegment :=
      sg_key := Some {| k_method := "NONE"; k_uri := ""; k_iv := ""; k_keyformat := ""; k_keyformatversions := "" |};
      sg_brlen := None; sg_brstart := None; sg_parts := [] |}.
 
-(* a rich playlist that the three F4 defects leave alone *)
+(* a rich playlist, including the fields of the repaired finding F4: EXT-X-START, a discontinuity
+   sequence different from the media sequence, SERVER-CONTROL without CAN-BLOCK-RELOAD *)
 Definition ex_media : Media :=
-  {| m_version := 9; m_independent := true; m_start := None; m_allowcache := Some false;
+  {| m_version := 9; m_independent := true; m_start := Some {| st_timeoffset := -7250000000 |}; m_allowcache := Some false;
      m_targetduration := 4;
-     m_servercontrol := Some {| sc_canblockreload := true; sc_partholdback := Some 1000020000;
+     m_servercontrol := Some {| sc_canblockreload := false; sc_partholdback := Some 1000020000;
                                 sc_canskipuntil := Some 24000000000 |};
      m_partinf := Some {| pi_parttarget := 333340000 |};
-     m_mediasequence := 2147483647; m_discseq := Some 2147483647; m_playlisttype := Some "EVENT";
+     m_mediasequence := 2147483647; m_discseq := Some 17; m_playlisttype := Some "EVENT";
      m_map := Some {| map_uri := "init.mp4"; map_brlen := Some 721; map_brstart := Some 0 |};
      m_skip := Some {| sk_skipped := 3 |};
      m_segments := [ex_seg1; ex_seg2]; m_parts := [ex_part "p3.mp4"];
      m_preloadhint := Some {| ph_uri := "p4.mp4"; ph_brstart := 579; ph_brlen := Some 18446744073709551615 |};
      m_endlist := false |}.
 
-Lemma ex_media_ok :
-  wf_media ex_media = true /\ f4_free ex_media = true
-  /\ opt_ok sc_canblockreload (m_servercontrol ex_media) = true.
-Proof. vm_compute. auto. Qed.
+Lemma ex_media_ok : wf_media ex_media = true.
+Proof. vm_compute. reflexivity. Qed.
 
 (* ... and the statement itself evaluated on it with the exact decimal oracles *)
 Lemma ex_media_roundtrips :
